@@ -746,6 +746,8 @@ func (ctx *actorContext) tryTerminated() {
 
 	terminatedMessage := &OnTerminated{TerminatedActor: ctx.ref}
 	ctx.processMessage(ctx.sender, ctx.ref, terminatedMessage, false)
+	// 若邮箱因事故处于挂起状态，恢复它以便剩余的用户消息进入深渊（死信），而不是永远滞留
+	ctx.deliverySystemMessage(ctx.ref, ctx.ref, ctx.ref, nil, onResumeMailbox)
 	ctx.system.rc.Unregister(ctx.sender, ctx.ref)
 	if ctx.scheduler != nil {
 		ctx.scheduler.Close()
